@@ -436,7 +436,15 @@ func (e *Env) getVersionShape(gv *types.Func) {
 				}
 			}
 			r := lf.Ret[0]
-			okVal := r.Op == ir.OCall && len(r.Args) == 1 && r.Args[0].Key() == idx(sp, 1).Key() && len(ps) == 1 && r.Obj == types.Object(ps[0])
+			okVal := r.Op == ir.OCall && len(r.Args) == 1 && r.Args[0].Key() == idx(sp, 1).Key()
+			if okVal {
+				okVal = false
+				for _, g := range ps {
+					if r.Obj == types.Object(g) {
+						okVal = true
+					}
+				}
+			}
 			c.Check(okLen && okTag && okVal, "version-prefix", cons, e.P.Pos(lf.Pos), `accepts only "CVSS:<label>" and returns the label's table look-up`, fmt.Sprintf("prefix acceptance is not exactly: two ':'-parts, first part == \"CVSS\", value = version parser of the second part (len ok=%v, tag ok=%v, value ok=%v)", okLen, okTag, okVal))
 		} else {
 			s, _, isWrap := sentinelOf(lf.Ret[1])
